@@ -25,7 +25,7 @@ EXPLANATION = (
     'request name matches what the server tests; R6 the server loop breaks on close, EOF and '
     'any other receive/decode error and the process ends after run(). Real-process behaviour '
     '(deadlock freedom, OS sockets, time-outs) is NOT decided.')
-TECHNIQUE = 'static lock-set + check-then-act + dominator/who-may-call rules + resolved call-arity check'
+TECHNIQUE = 'static lock-set + check-then-act + who-may-call rules + resolved call-arity check + abstract interpretation of the launch/close protocol on a modelled starter thread and connection'
 
 LOCK = 'self.prepare_lock'
 
